@@ -173,10 +173,24 @@ theorem pow_wordLen_le (W : Nat) (hW : 1 ≤ W) (n : Nat) (hn : n ≠ 0) : 2 ^ (
     simp at this; omega
   omega
 
-/-- **soundness of the length shortcut of `PreparedLarge::new`**:
-    `2 * prev.len() - 1 > number.len()` implies `prev * prev > number` -/
+theorem wordLen_pos (W : Nat) (hW : 1 ≤ W) (n : Nat) (hn : n ≠ 0) : 1 ≤ wordLen W n := by
+  by_contra h0
+  have : wordLen W n ≤ 0 := by omega
+  have := (wordLen_le_iff W hW n 0).mp this
+  simp at this; omega
+
+/-- the regenerated predicate, read over natural numbers -/
+theorem fmt_tower_stop_iff (a b : Nat) (ha : 1 ≤ a) :
+    Dashu.Gen.fmt_tower_stop (a : Int) (b : Int) = true ↔ 2 * a - 1 > b := by
+  unfold Dashu.Gen.fmt_tower_stop Dashu.GluePrelude.gt_ Dashu.GluePrelude.sub_ Dashu.GluePrelude.mul_
+  rw [beq_iff_eq, compare_gt_iff_gt]
+  omega
+
+/-- **soundness of the length shortcut of `PreparedLarge::new`** — about the predicate regenerated
+    from the source (`2 * prev.len() - 1 > number.len()`): whenever it holds, `prev * prev > number` -/
 theorem length_shortcut_sound (W : Nat) (hW : 1 ≤ W) (prev n : Nat) (hp : prev ≠ 0)
-    (h : 2 * wordLen W prev - 1 > wordLen W n) : n < prev * prev := by
+    (hstop : Dashu.Gen.fmt_tower_stop (wordLen W prev) (wordLen W n) = true) : n < prev * prev := by
+  have h := (fmt_tower_stop_iff _ _ (wordLen_pos W hW prev hp)).mp hstop
   have h1 := pow_wordLen_le W hW prev hp
   have h2 : wordLen W n ≤ 2 * (wordLen W prev - 1) := by omega
   have h3 := (wordLen_le_iff W hW n _).mp h2
